@@ -7,16 +7,16 @@ TECH = "bounded symbolic execution of go/ssa of /repo (own engine symgo) + z3 SM
 
 CLAIMED = {
  "C01": dict(
-   text="Byte layer of the NBT decoder against an independent grammar reference executed side by side: for every byte string of length 0..7 (quick) / 0..11 (thorough) and every root tag byte that the reference classifies as a complete value, the raw reader (RawMessage capture and unknown-field skipping, through a DecoderReader source and through a plain io.Reader with 1-2 byte reads) accepts it, consumes exactly its bytes (no over-read) and captures them byte for byte, also into a reused carrier; readInt8/16/32/64 are big-endian signed for all 2^64 inputs. The typed layer (Decode/Encode through reflect) is outside the claim.",
-   note="reflect-driven typed decode/encode, strings beyond the input bound and depth > 4 are not covered; number formatting is stubbed.",
+   text="Byte layer of the NBT decoder against an independent grammar reference executed side by side: for every byte string of length 0..7 (quick) / 0..11 (thorough) and every root tag byte that the reference classifies as a complete value, the raw reader (RawMessage capture and unknown-field skipping, through a DecoderReader source and through a plain io.Reader with 1-2 byte reads) accepts it, consumes exactly its bytes (no over-read) and captures them byte for byte, also into a reused carrier; readInt8/16/32/64 are big-endian signed for all 2^64 inputs. Typed layer (through the engine's reflect shim, every result replayed natively): a 19-field struct (signed scalars, floats as bit patterns, string, int/long/byte arrays, list option, omitempty, '-', nbtkey, embedded and pointer structs) with arbitrary contents decodes from its hand-written reference document (file and network format, unknown field skipped, exact consumption, root name) and encodes to exactly that document; int arrays into []int/[2]int/[]int32/[][]int; compound into any and map[string]any.",
+   note="type catalogue fixed (no generated type universe); strings beyond the bound and depth > 4 not covered; signalling float32 NaNs excluded (reflect.Value.Float quiets them); reflect is a shim validated by native replay.",
    ref="6 C01"),
  "C02": dict(
-   text="Carriers are byte-exact: for every byte string of length 0..7 and every tag that forms a complete value (independent reference), RawMessage and dynbt.Value decode it and MarshalNBT reproduces exactly those bytes, with the tag type kept, also when the same carrier was used for other documents before (stale list, compound fields, data capacity). The typed Unmarshal(Marshal(v)) round trip (reflect) is outside the claim.",
-   note="typed round trip not covered (reflect); carriers only at the root position.",
+   text="Carriers are byte-exact: for every byte string of length 0..7 and every tag that forms a complete value (independent reference), RawMessage and dynbt.Value decode it and MarshalNBT reproduces exactly those bytes, with the tag type kept, also when the same carrier was used for other documents before (stale list, compound fields, data capacity). Generated documents (all 12 tags at every node, 3-4 value nodes, depth <= 3, arbitrary names/payloads) and 17/18-entry compounds re-encode byte for byte. Typed: Unmarshal(Marshal(v)) == v with root name, v unmodified, for a struct with pointer, interface, map, slice, []bool, []int8, RawMessage, float64 and embedded fields (value and pointer passed, both formats) and for 16 scalar/slice/array/map kinds one by one incl. unsigned integers, [3]byte, []uint32.",
+   note="one open known finding (nil pointer field without omitempty decodes to a pointer to the zero value); fixed type catalogue; reflect is a shim validated by native replay.",
    ref="6 C02"),
  "C03": dict(
-   text="Totality of the byte-level decoders: every byte string of length 0..7 (quick) / 0..10 (thorough) with every tag byte into RawMessage (DecoderReader and plain reader), StringifiedMessage.UnmarshalNBT, RawMessage.String and dynbt.Value: no reachable Go panic on any path (every index, slice, make, nil, division site is a solver query), no loop without consuming input (instruction budget), and - classified by the independent reference - a strict prefix of a value, a negative declared length and an unknown tag id all yield an error. Nothing is asserted for inputs the reference cannot classify.",
-   note="typed targets (structs, maps, any) need reflect and are outside; decimal formatting of |v| >= 10^5 and float formatting are placeholders; allocation size is not a panic.",
+   text="Totality of the byte-level decoders: every byte string of length 0..7 (quick) / 0..10 (thorough) with every tag byte into RawMessage (DecoderReader and plain reader), StringifiedMessage.UnmarshalNBT, RawMessage.String, dynbt.Value (0..9/11 bytes, fresh and reused receiver) and the typed decoder (any, map, a 25-field struct, []int32, []int64, []byte, [2]int32, []any through the reflect shim): no reachable Go panic on any path (every index, slice, make, nil, division site is a solver query), no loop without consuming input (instruction budget), and - classified by the independent reference - a strict prefix of a value, a negative declared length and an unknown tag id all yield an error. Nothing is asserted for inputs the reference cannot classify.",
+   note="decimal formatting of |v| >= 10^5 and float formatting are placeholders; allocation size is not a panic.",
    ref="6 C03"),
  "C04": dict(
    text="Text -> binary: every text of 0..5 (quick) / 0..7 (thorough) bytes over all 256 byte values through StringifiedMessage.MarshalNBT (the real scanner, parseLiteral, strconv.ParseInt executed symbolically): no reachable panic, and whenever the parser accepts, the bytes produced are exactly one complete NBT value (independent grammar reference) of the tag type TagType() announces - never a truncated or mistyped document with a nil error. Agreement of the content with an independent SNBT reading, the 'malformed => error' clause and the binary->text->binary round trip are not covered yet.",
@@ -27,8 +27,8 @@ CLAIMED = {
    note="64-bit target; go/ssa + symgo instruction semantics (validated by native replay of witnesses); z3 soundness; bytes.Buffer/bytes.Reader/io.ReadFull executed from their real source.",
    ref="6 C05"),
  "C06": dict(
-   text="Per field type a layout/round-trip/count harness with fully symbolic values (Position over the whole signed 26/12/26 cube, floats as bit patterns incl. NaN) and arbitrary prior destination state: WriteTo bytes == independent big-endian/VarInt-prefixed layout, returned n == bytes produced/consumed, ReadFrom(bytes++trailing) yields the value through ByteReader and plain-reader paths. Variable-length types with lengths 0..4 (quick) / 0..8 (thorough); Option/OptionEncoder/OptionDecoder, Tuple (nested), Marshal/Builder/Scan composition. Ary/Opt/NBTField (reflect) are outside the claim.",
-   note="bounded lengths; reflect-driven combinators (Ary, Opt, NBTField) not covered; stubs listed in evidence.",
+   text="Per field type a layout/round-trip/count harness with fully symbolic values (Position over the whole signed 26/12/26 cube, floats as bit patterns incl. NaN) and arbitrary prior destination state: WriteTo bytes == independent big-endian/VarInt-prefixed layout, returned n == bytes produced/consumed, ReadFrom(bytes++trailing) yields the value through ByteReader and plain-reader paths. Variable-length types with lengths 0..4 (quick) / 0..8 (thorough); Option/OptionEncoder/OptionDecoder, Tuple (nested), Marshal/Builder/Scan composition. Ary with all eight length-prefix types (0..2 elements, destination nil/shorter/longer/spare capacity with stale contents) and Opt (Has by *bool or func, field by value or func) through the reflect shim.",
+   note="bounded lengths; NBTField not covered; reflect is a shim validated by native replay; stubs listed in evidence.",
    ref="6 C06"),
  "C07": dict(
    text="Pack/UnPack with id full int32, threshold in {-1, 0, any positive int (symbolic)}, payloads 0..3 bytes quick / 0..8 plus concrete boundary lengths 126,127,128,16383 thorough: unpack(pack(p))==p with a reused receiver and exactly one frame consumed, two frames in one stream, emitted frame accepted by an independent frame reader (lengths, data-length rule, zlib content == id++payload), and rejection of negative / oversize / below-threshold declared sizes for all int32 values of the length fields. zlib is a lossless model codec inside the engine (real zlib in native replay).",
